@@ -87,6 +87,33 @@ def main(rep):
                                                  "what": "implementation and model differ"})
                 continue
             validated += 1
+        # every allocation made by main() fails in turn (implementation only) in the start-ups whose privilege drop
+        # must fail closed: a lost error message must not become a lost error
+        nalloc = 0
+        if not found:
+            bases = []
+            for st, sw, cr in ((("ok", 1000, 100), ("fail", "ok", "ok"), (0, 0, 0)), (("ok", 1000, 100), ("fail", "ok", "ok"), (0, 0, 3)),
+                               (("ok", 1000, 100), ("ok", "fail", "ok"), (0, 0, 3)), (("ok", 1000, 100), ("ok", "ok", "fail"), (0, 0, 3)),
+                               (("ok", 1000, 100), ("noeffect", "noeffect", "noeffect"), (0, 0, 3)), (("fail", 0, 0), ("ok", "ok", "ok"), (0, 0, 3)),
+                               (("ok", 1000, 100), ("ok", "ok", "ok"), (0, 0, 3))):
+                bases.append((mc.main_case(stat=st, cred=cr + sw, slots=[mc.slot(exe=1)]), (st, cr + sw)))
+            counts, _, _ = vlib.correspond(exe_impl, None, "main", [("n%d" % i, b.replace("m_run", "m_allocs\nm_run")) for i, (b, _) in enumerate(bases)], sandbox=True)
+            acases = []
+            for i, (b, meta) in enumerate(bases):
+                na = next((int(l.split()[1]) for l in counts.get("n%d" % i) or [] if l.startswith("allocs ")), 0)
+                for k in range(min(na, 80)):
+                    acases.append(("f%d_%d" % (i, k), b.replace("m_run", "m_afail %d\nm_run" % k), meta))
+            nalloc = len(acases)
+            aimpl, _, aproblems = vlib.correspond(exe_impl, None, "main", [(c, t) for c, t, _ in acases], sandbox=True, shards=min(16, max(1, len(acases))))
+            for cid, script, meta in acases:
+                bad = monitor(meta, [l for l in (aimpl.get(cid) or []) if not l.startswith("allocs ")])
+                if bad:
+                    rep.violation("privileges", {"case": cid, "script": script.split("\n"), "implementation": aimpl.get(cid),
+                                                 "what": "with allocation %s of main() failing: %s" % (cid.split("_")[1], bad)})
+                    found = True
+                    break
+                validated += 1
+        rep.cov["allocation_failures_enumerated"] = nalloc
         rep.cov["traces_validated_against_impl"] = validated
         for p in problems:
             rep.notes.append(p)
@@ -99,7 +126,7 @@ def main(rep):
     rep.cov["input_distribution"] = {"stat x switches x initial credentials": len(cases) - 6 - nmissing, "failing start-up calls": 6, "missing watch roots": nmissing}
     rep.cov["rule"] = ("exhaustive: stat outcome {fails, owner 0:0, 0:5, 5:0, 1000:100} x {ok, fail, succeeds-without-effect}^3 for setgroups/setgid/setuid x "
                        "initial credentials {0:0 with groups, 0:0 without, 1000:100, 0:100, 1000:0} on the real main() with every call scripted, two event slots behind; "
-                       "plus failures of fanotify_init, the mount table, mount, fanotify_mark, load_handler, and watch roots that do not exist; the monitor checks the order, the credentials at load, and that no interposed call that "
+                       "plus failures of fanotify_init, the mount table, mount, fanotify_mark, load_handler, watch roots that do not exist, and every allocation of main() failing in turn in seven start-ups whose drop must fail closed (implementation only); the monitor checks the order, the credentials at load, and that no interposed call that "
                        "modifies the file system (mkdir, open with O_CREAT, link, rename, unlink, ...) is attempted while the user id or the group id is zero")
     rep.cov["samples"] = [cases[7][1].split("\n")]
     vlib.conclude_proofs(rep, found)
